@@ -918,7 +918,241 @@ pub fn forwarder_of(sig: &syn::Signature, block: &syn::Block) -> Option<String> 
     }
 }
 
+/// Raw-copy primitives: a call of one of these duplicates the bits of its source.
+const RAW_COPY: &[&str] = &[
+    "copy_nonoverlapping", "copy", "copy_from", "copy_to", "copy_from_nonoverlapping",
+    "copy_to_nonoverlapping", "read", "read_unaligned", "read_volatile", "assume_init_read",
+    "transmute_copy",
+];
+
+/// (owner, fn) → the raw-copy primitive its body uses, directly or through fns of the same
+/// owner that it calls as `self.f(..)` / `Self::f(..)` (`"g → copy_from_nonoverlapping"`).
+/// Every fn with a body of the compiled source is indexed, whatever its visibility.
+pub fn raw_copy_index(cm: &CrateModel) -> Result<BTreeMap<(String, String), String>, String> {
+    struct V {
+        prim: Option<String>,
+        callees: Vec<String>,
+        free_callees: Vec<String>,
+    }
+    impl<'ast> Visit<'ast> for V {
+        fn visit_item(&mut self, _: &'ast syn::Item) {}
+        fn visit_expr_method_call(&mut self, m: &'ast syn::ExprMethodCall) {
+            let n = m.method.to_string();
+            // `.read()` / `.copy()` only count without / with the pointer-style arity
+            let is_prim = match n.as_str() {
+                "read" | "read_unaligned" | "read_volatile" | "assume_init_read" => m.args.is_empty(),
+                "copy" => false, // `InlineVec::copy` itself is a crate fn, not the primitive
+                other => RAW_COPY.contains(&other) && !m.args.is_empty(),
+            };
+            if is_prim && self.prim.is_none() {
+                self.prim = Some(n.clone());
+            }
+            // any receiver: `this.extend_from_slice_copy_unchecked(..)` on a local of type `Self`
+            // counts (resolved by name within the same owner only)
+            self.callees.push(n);
+            syn::visit::visit_expr_method_call(self, m);
+        }
+        fn visit_expr_call(&mut self, c: &'ast syn::ExprCall) {
+            if let syn::Expr::Path(fp) = &*c.func {
+                let segs: Vec<String> = fp.path.segments.iter().map(|s| s.ident.to_string()).collect();
+                let last = segs.last().cloned().unwrap_or_default();
+                if segs.len() >= 2 && segs[0] == "Self" {
+                    self.callees.push(last.clone());
+                } else if segs.len() == 1 && matches!(last.as_str(), "copy_nonoverlapping" | "transmute_copy") {
+                    if self.prim.is_none() {
+                        self.prim = Some(last.clone());
+                    }
+                } else if segs.len() == 1 || segs[0] == "crate" || segs[0] == "common" || segs[0] == "super" {
+                    // a free fn of the crate (resolved by name among the free fns)
+                    self.free_callees.push(last.clone());
+                } else if RAW_COPY.contains(&last.as_str())
+                    && segs.len() >= 2
+                    && matches!(segs[segs.len() - 2].as_str(), "ptr" | "mem" | "intrinsics")
+                    && self.prim.is_none()
+                {
+                    self.prim = Some(segs[segs.len() - 2..].join("::"));
+                }
+            }
+            syn::visit::visit_expr_call(self, c);
+        }
+        fn visit_macro(&mut self, m: &'ast syn::Macro) {
+            let t = m.tokens.to_string();
+            for p in ["copy_nonoverlapping", "assume_init_read", "transmute_copy"] {
+                if t.contains(p) && self.prim.is_none() {
+                    self.prim = Some(format!("{p} (in macro)"));
+                }
+            }
+        }
+    }
+    let mut direct: BTreeMap<(String, String), String> = BTreeMap::new();
+    let mut calls: BTreeMap<(String, String), Vec<String>> = BTreeMap::new();
+    let mut free_calls: BTreeMap<(String, String), Vec<String>> = BTreeMap::new();
+    let mut free_fns: BTreeMap<String, Vec<String>> = BTreeMap::new(); // name -> module owners
+    for (mi, module) in cm.modules.iter().enumerate() {
+        let mprefix = module.path.join("::");
+        for it in &module.items {
+            let mut one = |owner: String, sig: &syn::Signature, block: &syn::Block| {
+                let mut v = V { prim: None, callees: vec![], free_callees: vec![] };
+                v.visit_block(block);
+                let k = (owner, sig.ident.to_string());
+                if let Some(p) = v.prim {
+                    direct.insert(k.clone(), p);
+                }
+                calls.entry(k.clone()).or_default().extend(v.callees);
+                free_calls.entry(k).or_default().extend(v.free_callees);
+            };
+            match it {
+                syn::Item::Fn(f) => {
+                    free_fns.entry(f.sig.ident.to_string()).or_default().push(mprefix.clone());
+                    one(mprefix.clone(), &f.sig, &f.block)
+                }
+                syn::Item::Impl(im) => {
+                    let owner = match impl_self_adt(cm, mi, im) {
+                        Some(d) => cm.def_path(d),
+                        None => norm_tokens(&*im.self_ty),
+                    };
+                    for ii in &im.items {
+                        if let syn::ImplItem::Fn(f) = ii {
+                            if cfg_active(&f.attrs)? {
+                                one(owner.clone(), &f.sig, &f.block);
+                            }
+                        }
+                    }
+                }
+                _ => {}
+            }
+        }
+    }
+    let mut all = direct.clone();
+    loop {
+        let mut add = vec![];
+        for ((o, f), cs) in &calls {
+            if all.contains_key(&(o.clone(), f.clone())) {
+                continue;
+            }
+            let mut found = None;
+            for g in cs {
+                if g == f {
+                    continue;
+                }
+                if let Some(p) = all.get(&(o.clone(), g.clone())) {
+                    found = Some((g.clone(), p.clone()));
+                    break;
+                }
+            }
+            if found.is_none() {
+                for g in free_calls.get(&(o.clone(), f.clone())).into_iter().flatten() {
+                    for fo in free_fns.get(g).into_iter().flatten() {
+                        if let Some(p) = all.get(&(fo.clone(), g.clone())) {
+                            found = Some((g.clone(), p.clone()));
+                        }
+                    }
+                }
+            }
+            if let Some((g, p)) = found {
+                let base = p.rsplit(" → ").next().unwrap_or(&p).to_string();
+                add.push(((o.clone(), f.clone()), format!("{g} → {base}")));
+            }
+        }
+        if add.is_empty() {
+            break;
+        }
+        all.extend(add);
+    }
+    Ok(all)
+}
+
+/// Does the type mention the identifier by value (not behind a reference / raw pointer)?
+fn mentions_by_value(t: &syn::Type, names: &[String]) -> bool {
+    match t {
+        syn::Type::Paren(p) => mentions_by_value(&p.elem, names),
+        syn::Type::Group(p) => mentions_by_value(&p.elem, names),
+        syn::Type::Reference(_) | syn::Type::Ptr(_) => false,
+        syn::Type::Slice(s) => mentions_by_value(&s.elem, names),
+        syn::Type::Array(a) => mentions_by_value(&a.elem, names),
+        syn::Type::Tuple(tu) => tu.elems.iter().any(|e| mentions_by_value(e, names)),
+        syn::Type::Path(tp) => {
+            tp.path.segments.iter().any(|s| {
+                names.contains(&s.ident.to_string())
+                    || match &s.arguments {
+                        syn::PathArguments::AngleBracketed(ab) => ab.args.iter().any(|a| match a {
+                            syn::GenericArgument::Type(x) => mentions_by_value(x, names),
+                            _ => false,
+                        }),
+                        _ => false,
+                    }
+            })
+        }
+        _ => false,
+    }
+}
+
+/// Does the type mention the identifier anywhere?
+fn mentions(t: &syn::Type, names: &[String]) -> bool {
+    use quote::ToTokens;
+    t.to_token_stream().into_iter().any(|tt| match tt {
+        proc_macro2::TokenTree::Ident(i) => names.contains(&i.to_string()),
+        proc_macro2::TokenTree::Group(g) => g.stream().into_iter().any(|x| matches!(x, proc_macro2::TokenTree::Ident(i) if names.contains(&i.to_string()))),
+        _ => false,
+    })
+}
+
+/// Bounds in force for a fn: inline bounds and where-clauses of the given generics.
+fn bounds_in_force(gs: &[&syn::Generics]) -> Vec<(String, String)> {
+    let mut out: Vec<(String, String)> = vec![];
+    let mut push = |who: String, bs: &syn::punctuated::Punctuated<syn::TypeParamBound, syn::Token![+]>| {
+        for b in bs {
+            let what = match b {
+                syn::TypeParamBound::Trait(tb) => {
+                    let p = norm_tokens(&tb.path);
+                    // marker-ish traits by their last segment; others with their arguments
+                    let last = tb.path.segments.last().map(|s| s.ident.to_string()).unwrap_or_default();
+                    let q = if matches!(tb.modifier, syn::TraitBoundModifier::Maybe(_)) { "?" } else { "" };
+                    if tb.path.segments.last().map_or(true, |s| s.arguments.is_none()) {
+                        format!("{q}{last}")
+                    } else {
+                        format!("{q}{p}")
+                    }
+                }
+                syn::TypeParamBound::Lifetime(l) => format!("'{}", l.ident),
+                _ => continue,
+            };
+            let e = (who.clone(), what);
+            if !out.contains(&e) {
+                out.push(e);
+            }
+        }
+    };
+    for g in gs {
+        for p in &g.params {
+            if let syn::GenericParam::Type(t) = p {
+                push(t.ident.to_string(), &t.bounds);
+            }
+        }
+        if let Some(wc) = &g.where_clause {
+            for pred in &wc.predicates {
+                if let syn::WherePredicate::Type(pt) = pred {
+                    push(norm_tokens(&pt.bounded_ty), &pt.bounds);
+                }
+            }
+        }
+    }
+    out
+}
+
 pub struct FnRow {
+    /// bounds in force: (bounded type, bound) pairs of the fn and of its impl/trait block
+    pub bounds: Vec<(String, String)>,
+    /// the element type parameter: first type argument of the self type when it is a parameter
+    pub elem_param: Option<String>,
+    /// `Some(primitive)`: the body (or a same-type fn it calls) duplicates bits with a raw copy
+    pub dup_bits: Option<String>,
+    /// `&self`, or a parameter that is a shared reference to something mentioning the element type
+    pub shared_src: bool,
+    /// returns `Self` / the element type by value, or takes `&mut self`
+    pub produces_owned: bool,
+    /// for rows that must require `T: Copy`: the call instantiated at `String` and at `u8`
+    pub copy_probe: Option<Result<(ProbeCall, ProbeCall), String>>,
     /// `Some(callee)`: the body is a pure forwarder to `callee` in unsafe context
     pub forwards: Option<String>,
     pub name: String,
@@ -981,6 +1215,9 @@ struct Owner<'a> {
     anon_count: usize,
     /// `type X = …;` items of the impl (to read `Self::X` in return types)
     assoc: Vec<(String, syn::Type)>,
+    /// key of this owner in `dups`, and the raw-copy index
+    owner_key: String,
+    dups: &'a BTreeMap<(String, String), String>,
 }
 
 fn has_safety_heading(attrs: &[syn::Attribute]) -> bool {
@@ -1357,7 +1594,18 @@ fn make_probe(
     owner: &Owner,
     sig: &syn::Signature,
 ) -> Result<ProbeCall, String> {
-    let (generics, callee, _recv, args) = probe_parts(cm, module, owner, sig)?;
+    make_probe_with(cm, module, owner, sig, &BTreeMap::new())
+}
+
+/// Same, with some generic parameters instantiated as given (`T` → `String`).
+fn make_probe_with(
+    cm: &CrateModel,
+    module: usize,
+    owner: &Owner,
+    sig: &syn::Signature,
+    overrides: &BTreeMap<String, String>,
+) -> Result<ProbeCall, String> {
+    let (generics, callee, _recv, args) = probe_parts_with(cm, module, owner, sig, overrides)?;
     Ok(ProbeCall {
         generics,
         call: format!("{callee}({})", args.join(", ")),
@@ -1372,6 +1620,16 @@ fn probe_parts(
     owner: &Owner,
     sig: &syn::Signature,
 ) -> Result<(String, String, Option<String>, Vec<String>), String> {
+    probe_parts_with(cm, module, owner, sig, &BTreeMap::new())
+}
+
+fn probe_parts_with(
+    cm: &CrateModel,
+    module: usize,
+    owner: &Owner,
+    sig: &syn::Signature,
+    overrides: &BTreeMap<String, String>,
+) -> Result<(String, String, Option<String>, Vec<String>), String> {
     let mut pc = ProbeCx {
         cm,
         module,
@@ -1382,6 +1640,9 @@ fn probe_parts(
         pc.add_generics(g)?;
     }
     pc.add_generics(&sig.generics)?;
+    for (k, v) in overrides {
+        pc.subst.insert(k.clone(), v.clone());
+    }
     let mut generics = String::new();
     let callee: String;
     if owner.is_trait_decl {
@@ -1511,6 +1772,41 @@ fn make_row(
     let sk = skeleton(cm, module, file, owner, sig)?;
     let forwards = body.and_then(|b| forwarder_of(sig, b));
     let simple = sig.ident.to_string();
+    let mut gs: Vec<&syn::Generics> = owner.generics.clone();
+    gs.push(&sig.generics);
+    let bounds = bounds_in_force(&gs);
+    // element type parameter: first type argument of the self type, when it is a parameter
+    let impl_tys: Vec<String> = owner.generics.iter().flat_map(|g| generic_names(g).0).collect();
+    let elem_param = owner.self_syn.and_then(|st| match st {
+        syn::Type::Path(tp) => tp.path.segments.last().and_then(|seg| match &seg.arguments {
+            syn::PathArguments::AngleBracketed(ab) => ab.args.iter().find_map(|a| match a {
+                syn::GenericArgument::Type(syn::Type::Path(p)) => p.path.get_ident().map(|i| i.to_string()),
+                _ => None,
+            }),
+            _ => None,
+        }),
+        _ => None,
+    })
+    .filter(|n| impl_tys.contains(n) && owner.owner_key.starts_with("vecs::"));
+    let dup_bits = owner.dups.get(&(owner.owner_key.clone(), simple.clone())).cloned();
+    let self_names: Vec<String> = {
+        let mut v = vec!["Self".to_string()];
+        v.extend(elem_param.iter().cloned());
+        if let Some(syn::Type::Path(tp)) = owner.self_syn {
+            if let Some(seg) = tp.path.segments.last() {
+                v.push(seg.ident.to_string());
+            }
+        }
+        v
+    };
+    let shared_src = sig.inputs.iter().any(|a| match a {
+        syn::FnArg::Receiver(r) => r.colon_token.is_none() && r.reference.is_some() && r.mutability.is_none(),
+        syn::FnArg::Typed(pt) => {
+            matches!(&*pt.ty, syn::Type::Reference(r) if r.mutability.is_none() && mentions(&r.elem, &self_names))
+        }
+    });
+    let produces_owned = matches!(sig.inputs.first(), Some(syn::FnArg::Receiver(r)) if r.reference.is_some() && r.mutability.is_some())
+        || matches!(&sig.output, syn::ReturnType::Type(_, t) if mentions_by_value(t, &self_names));
     let is_unsafe = sig.unsafety.is_some();
     let name_unchecked = simple.ends_with("_unchecked");
     let has_safety_doc = has_safety_heading(attrs);
@@ -1555,8 +1851,28 @@ fn make_row(
     } else {
         None
     };
+    // rows that must require `T: Copy` (Rust-side mirror of `Model.PubFns.needsCopy`): the name rule
+    // (`copy` / `*_copy*` under `vecs::`) or the body rule
+    let name_says_copy = owner.owner_key.starts_with("vecs::") && (simple == "copy" || simple.contains("_copy"));
+    let copy_probe = match &elem_param {
+        Some(t) if name_says_copy || (dup_bits.is_some() && shared_src && produces_owned) => {
+            let at = |w: &str| {
+                let mut o = BTreeMap::new();
+                o.insert(t.clone(), w.to_string());
+                make_probe_with(cm, module, owner, sig, &o)
+            };
+            Some(at("::alloc::string::String").and_then(|a| at("u8").map(|b| (a, b))))
+        }
+        _ => None,
+    };
     let door = doors::classify(cm, module, owner, sig, || make_probe(cm, module, owner, sig));
     Ok(FnRow {
+        bounds,
+        elem_param,
+        dup_bits,
+        shared_src,
+        produces_owned,
+        copy_probe,
         door,
         forwards,
         self_escape,
@@ -1655,11 +1971,18 @@ fn macro_rows(prefix: &str, file: &SrcFile, ts: proc_macro2::TokenStream, rows: 
             probe: Err("defined in a macro body (covered by the probe of the trait method it implements)".into()),
             self_escape: None,
             door: None,
+            bounds: vec![],
+            elem_param: None,
+            dup_bits: None,
+            shared_src: false,
+            produces_owned: false,
+            copy_probe: None,
         });
     }
 }
 
 pub fn collect(cm: &CrateModel) -> Result<Collected, String> {
+    let dups = raw_copy_index(cm)?;
     // ---- public traits (+ supertraits: their methods are callable on `T: PubTrait`) ----
     let mut pub_traits: BTreeSet<usize> = BTreeSet::new();
     for (d, def) in cm.defs.iter().enumerate() {
@@ -1784,6 +2107,8 @@ pub fn collect(cm: &CrateModel) -> Result<Collected, String> {
                         is_trait_decl: false,
                         anon_count: 0,
                         assoc: vec![],
+                        owner_key: mprefix.clone(),
+                        dups: &dups,
                     };
                     rows.push(make_row(cm, mi, file, &owner, &f.sig, &f.attrs, Some(&f.block))?);
                 }
@@ -1809,6 +2134,8 @@ pub fn collect(cm: &CrateModel) -> Result<Collected, String> {
                         is_trait_decl: true,
                         anon_count: 0,
                         assoc: vec![],
+                        owner_key: cm.def_path(d),
+                        dups: &dups,
                     };
                     for ti in &t.items {
                         if let syn::TraitItem::Fn(f) = ti {
@@ -1874,6 +2201,11 @@ pub fn collect(cm: &CrateModel) -> Result<Collected, String> {
                                 _ => None,
                             })
                             .collect(),
+                        owner_key: match local {
+                            Some(d) => cm.def_path(d),
+                            None => norm_tokens(&*im.self_ty),
+                        },
+                        dups: &dups,
                     };
                     let _ = owner.anon_count;
                     for ii in &im.items {
@@ -2211,7 +2543,7 @@ pub fn render(c: &Collected) -> String {
                 .join(", ");
             let owner = r.name.strip_suffix(&r.simple).and_then(|p| p.strip_suffix("::")).unwrap_or("");
             o.push_str(&format!(
-                "  ⟨{}, {}, {}, {}, {}, {}, {}, {}, {}, {}, [{}], [{}], [{}], {}⟩{}\n",
+                "  ⟨{}, {}, {}, {}, {}, {}, {}, {}, {}, {}, {}, {}, {}, {}, {}, {}, [{}], [{}], [{}], {}⟩{}\n",
                 lean_string(&r.name),
                 key_of(&r.name),
                 lean_string(&r.simple),
@@ -2225,6 +2557,22 @@ pub fn render(c: &Collected) -> String {
                     Some(c) => format!("(some {})", lean_string(c)),
                     None => "none".to_string(),
                 },
+                format!(
+                    "[{}]",
+                    r.bounds
+                        .iter()
+                        .map(|(a, b)| format!("({}, {})", key_of(a), key_of(b)))
+                        .collect::<Vec<_>>()
+                        .join(", ")
+                ),
+                lean_string(&r.bounds.iter().map(|(a, b)| format!("{a}: {b}")).collect::<Vec<_>>().join(", ")),
+                r.elem_param.as_deref().map_or("0".to_string(), key_of),
+                match &r.dup_bits {
+                    Some(c) => format!("(some {})", lean_string(c)),
+                    None => "none".to_string(),
+                },
+                r.shared_src,
+                r.produces_owned,
                 ins,
                 outs,
                 ol,
